@@ -74,7 +74,7 @@ def day_context(ic0, ps, cs):
     if cs.season_counter >= 0:
         cur = cs.step_start_time
         gs = bool((cs.planting_dates[cs.season_counter] <= cur)
-                  and (cs.harvest_dates[cs.season_counter] >= cur)
+                  and (cs.harvest_dates[cs.season_counter] > cur)
                   and (ic0.crop_mature is False) and (ic0.crop_dead is False))
         crop = ps.Seasonal_Crop_List[cs.season_counter]
         irr = ps.IrrMngt
